@@ -8,12 +8,12 @@ MC = os.path.join(SPEC, "mc")
 
 # scenario -> (profile, quick constants, thorough constants)
 SCN = {
-    "handshake":  ("both", "MaxD = 4 MaxGen = 2 MaxN = 1 Windows = {1} MaxId = 3", "MaxD = 5 MaxGen = 2 MaxN = 2 Windows = {1} MaxId = 3"),
-    "publisher":  ("pub",  "MaxD = 4 MaxGen = 1 MaxN = 2 Windows = {1, 2} MaxId = 3", "MaxD = 6 MaxGen = 1 MaxN = 3 Windows = {1, 2} MaxId = 3"),
+    "handshake":  ("both", "MaxD = 4 MaxGen = 2 MaxN = 1 Windows = {1} MaxId = 3", "MaxD = 6 MaxGen = 2 MaxN = 2 Windows = {1} MaxId = 3"),
+    "publisher":  ("pub",  "MaxD = 4 MaxGen = 1 MaxN = 2 Windows = {1, 2} MaxId = 3", "MaxD = 5 MaxGen = 1 MaxN = 3 Windows = {1, 2} MaxId = 3"),
     "session":    ("pub",  "MaxD = 4 MaxGen = 3 MaxN = 2 Windows = {1, 2} MaxId = 3", "MaxD = 5 MaxGen = 3 MaxN = 2 Windows = {1, 2} MaxId = 3"),
     "subscriber": ("sub",  "MaxD = 3 MaxGen = 2 MaxN = 2 Windows = {1, 2} MaxId = 3", "MaxD = 4 MaxGen = 2 MaxN = 2 Windows = {1, 2} MaxId = 3"),
-    "keepalive":  ("both", "MaxD = 2 MaxGen = 2 MaxN = 1 Windows = {1} MaxId = 3", "MaxD = 3 MaxGen = 3 MaxN = 1 Windows = {1} MaxId = 3"),
-    "twoaddr":    ("pub",  "MaxD = 4 MaxGen = 1 MaxN = 1 Windows = {1} MaxId = 3", "MaxD = 5 MaxGen = 2 MaxN = 1 Windows = {1} MaxId = 3"),
+    "keepalive":  ("both", "MaxD = 2 MaxGen = 2 MaxN = 1 Windows = {1} MaxId = 3", "MaxD = 4 MaxGen = 3 MaxN = 1 Windows = {1} MaxId = 3"),
+    "twoaddr":    ("pub",  "MaxD = 5 MaxGen = 2 MaxN = 1 Windows = {1} MaxId = 3", "MaxD = 6 MaxGen = 2 MaxN = 1 Windows = {1} MaxId = 3"),
 }
 # property -> (scenarios, formulas checked in U1)
 U1 = {
